@@ -240,6 +240,19 @@ func runFree(p *freeProgram) (f *Failure, stats map[string]int) {
 		}
 		return fail("C09", "lifetime-rules", pr.Oracle+"/"+pr.Sig, "%s", pr.Msg), stats
 	}
+	// transients: no instance handed out twice (the site-count half of C03 is not applicable when calls may fail half-way)
+	handed := map[*kit.Entry]string{}
+	vis := x.visibleInvs()
+	for _, sn := range obs {
+		reg := x.M.Regs[sn.Owner.Reg]
+		if reg.Life != kit.Transient || reg.Form == kit.FormInstance || sn.E == nil || (sn.ByInv != nil && !vis[sn.ByInv]) {
+			continue
+		}
+		if prev, dup := handed[sn.E]; dup {
+			return fail("C09", "lifetime-rules", "C03/fresh/"+sn.ViaKind, "transient instance %v handed out twice: at %s and at %s", sn.E, prev, sn.Where), stats
+		}
+		handed[sn.E] = sn.Where
+	}
 	for _, chk := range []func() *Failure{func() *Failure { return x.checkC01(obs) }, func() *Failure { return x.checkC02(obs) }, func() *Failure { return x.checkC04(obs, nil) }, func() *Failure { return x.checkC10(true) }} {
 		if g := chk(); g != nil {
 			return fail("C09", "lifetime-rules", g.Prop+"/"+g.Oracle+"/"+g.Sig, "%s", g.Msg), stats
